@@ -223,6 +223,20 @@ func (e *fnEnc) instr(in ssa.Instruction) {
 		if e.con == nil || !e.con.MayPanic {
 			e.oblig("safe", "explicit-panic", nil, e.curReach, "false", in.Pos())
 		}
+		if e.con != nil && len(e.con.PanicsOnlyIf) > 0 {
+			env := e.baseEnv()
+			env.vars = e.params
+			env.heap = e.curHeap
+			env.old = heapState{}
+			for _, c := range e.con.PanicsOnlyIf {
+				t, err := env.tr(c.Expr, "Bool")
+				if err != nil {
+					e.fail("%s:%d: panics_only_if: %v", c.File, c.Line, err)
+				}
+				o := e.oblig("post", "panics-only-if:"+clauseName(c), c.Props, e.curReach, t.S, in.Pos())
+				o.Clause = c
+			}
+		}
 		nr := e.fresh("reach", "Bool")
 		e.assert(fmt.Sprintf("(= %s false)", nr))
 		e.curReach = nr
@@ -544,6 +558,10 @@ func (e *fnEnc) sliceOp(in *ssa.Slice) {
 	if al, ok := in.X.(*ssa.Alloc); ok && e.localArr[al] != nil {
 		arrT := al.Type().Underlying().(*types.Pointer).Elem().Underlying().(*types.Array)
 		s := U.sliceSort(arrT.Elem())
+		if c, ok := in.High.(*ssa.Const); ok && in.Low == nil && c.Int64() == 0 {
+			e.val[in] = []Term{{s + ".empty", s, in.Type()}}
+			return
+		}
 		if in.Low != nil || in.High != nil {
 			e.unsupported(in, "partial slice of local array")
 			return
